@@ -437,7 +437,63 @@ static int op_acc(char** w, int argc) {
   return handled;
 }
 
+/* ---- ACC, leaf serializers:  ACC <fn> <kind> <value> <n>   (5 words) ------------------------------------------------
+   A REAL item is built through the library's constructors / setters (kind: u8 u16 u32 u64 = unsigned integer of that width, n8 n16 n32 n64 =
+   negative integer, <value> decimal; ctrl = simple value 0..255; f2 f4 = half / single holding the binary32 pattern <value>, f8 = double
+   holding the binary64 pattern; bs / ts = definite byte / text string, <value> = hex bytes or `-`).  The REAL type-specific serializer <fn>
+   is called on an exactly-sized heap block of <n> bytes prefilled with 0xAA (n = 0: the one-past pointer), so ASan sees every overflow.
+   Output: <return value> <the n bytes afterwards> ok=1;   fn = cbor_serialized_size: <return value> - ok=1  (n ignored).
+   No fork: every line is well-typed (the constructors establish the assertions), so a death of the process is a finding. */
+static int op_accser(char** w) {
+  const char *fn = w[1], *kind = w[2];
+  size_t n = strtoull(w[4], 0, 10);
+  uint64_t v = strtoull(w[3], 0, 10);
+  cbor_item_t* it = NULL;
+  h_alloc_forbid(0);                          /* building the item allocates; the serializer itself must not */
+  if (!strcmp(kind, "u8")) it = cbor_build_uint8((uint8_t)v);
+  else if (!strcmp(kind, "u16")) it = cbor_build_uint16((uint16_t)v);
+  else if (!strcmp(kind, "u32")) it = cbor_build_uint32((uint32_t)v);
+  else if (!strcmp(kind, "u64")) it = cbor_build_uint64(v);
+  else if (!strcmp(kind, "n8")) it = cbor_build_negint8((uint8_t)v);
+  else if (!strcmp(kind, "n16")) it = cbor_build_negint16((uint16_t)v);
+  else if (!strcmp(kind, "n32")) it = cbor_build_negint32((uint32_t)v);
+  else if (!strcmp(kind, "n64")) it = cbor_build_negint64(v);
+  else if (!strcmp(kind, "ctrl")) { it = cbor_new_ctrl(); if (it) cbor_set_ctrl(it, (uint8_t)v); }
+  else if (!strcmp(kind, "f2")) { uint32_t u = (uint32_t)v; float f; memcpy(&f, &u, 4); it = cbor_new_float2(); if (it) cbor_set_float2(it, f); }
+  else if (!strcmp(kind, "f4")) { uint32_t u = (uint32_t)v; float f; memcpy(&f, &u, 4); it = cbor_new_float4(); if (it) cbor_set_float4(it, f); }
+  else if (!strcmp(kind, "f8")) { double d; memcpy(&d, &v, 8); it = cbor_new_float8(); if (it) cbor_set_float8(it, d); }
+  else if (!strcmp(kind, "bs") || !strcmp(kind, "ts")) {
+    struct xbuf xb = hex_to_exact(w[3]);
+    it = kind[0] == 'b' ? cbor_build_bytestring(xb.p, xb.n) : cbor_build_stringn((const char*)xb.p, xb.n);
+    free_exact(xb);
+  } else { h_alloc_forbid(1); return 0; }
+  h_alloc_forbid(1);
+  if (!it) { printf("alloc-failed\n"); return 1; }
+  size_t (*f)(const cbor_item_t*, unsigned char*, size_t) = NULL;
+  int handled = 1;
+  if (!strcmp(fn, "cbor_serialized_size")) printf("%zu - ok=1\n", cbor_serialized_size(it));
+  else {
+    if (!strcmp(fn, "cbor_serialize_uint")) f = cbor_serialize_uint;
+    else if (!strcmp(fn, "cbor_serialize_negint")) f = cbor_serialize_negint;
+    else if (!strcmp(fn, "cbor_serialize_float_ctrl")) f = cbor_serialize_float_ctrl;
+    else if (!strcmp(fn, "cbor_serialize_bytestring")) f = cbor_serialize_bytestring;
+    else if (!strcmp(fn, "cbor_serialize_string")) f = cbor_serialize_string;
+    if (!f) handled = 0;
+    else {
+      unsigned char* base = malloc(n ? n : 1);
+      unsigned char* p = n ? base : base + 1;
+      memset(p, 0xAA, n);
+      size_t r = f(it, p, n);
+      printf("%zu ", r); print_hex(p, n); printf(" ok=1\n");
+      free(base);
+    }
+  }
+  h_alloc_forbid(0); cbor_decref(&it); h_alloc_forbid(1);
+  return handled;
+}
+
 int gen_op(int argc, char** w) {
+  if (argc == 5 && !strcmp(w[0], "ACC")) return op_accser(w);
   if ((argc == 9 || argc == 10) && !strcmp(w[0], "ACC")) return op_acc(w, argc);
   if (argc == 2 && !strcmp(w[0], "F32ALL")) { op_f32all((unsigned)strtoul(w[1], 0, 10)); return 1; }
   if (argc == 3 && !strcmp(w[0], "UTF8ALL")) { op_utf8all(strtoull(w[1], 0, 10), w[2]); return 1; }
